@@ -3,4 +3,4 @@ From Foca Require Import Ser SerdeM.
 Require Extraction.
 Require Import ExtrOcamlBasic.
 Extraction Language OCaml.
-Extraction "model.ml" run_step_ser run_decode run_encode.
+Extraction "model.ml" run_step_ser run_decode run_encode run_timer_seq.
